@@ -40,7 +40,8 @@ type eCase struct {
 	Parsers map[int]string `json:"parsers,omitempty"` // number | strhash | numrange (default holder FieldParser)
 	Docs    []eDoc         `json:"docs"`
 	Queries []eQuery       `json:"queries"`
-	Batch   int            `json:"batch,omitempty"` // > 1: documents are handed to AddDocument in groups of up to Batch
+	Batch   int            `json:"batch,omitempty"`   // > 1: documents are handed to AddDocument in groups of up to Batch
+	Rebuild int            `json:"rebuild,omitempty"` // > 0: BuildIndex is also called after the first Rebuild documents (no Reset); the final build is the one queried
 }
 
 func fieldName(f int) be.BEField { return be.BEField(fmt.Sprintf("f%d", f)) }
@@ -359,6 +360,9 @@ func execE2E(raw json.RawMessage) (res execResult, err error) {
 	} else {
 		for i := range c.Docs {
 			outs[i] = addOne(b, c.Docs[i].build())
+			if c.Rebuild > 0 && i+1 == c.Rebuild {
+				safeCall(func() { b.BuildIndex() }) // an intermediate build; more documents (and fields) follow
+			}
 		}
 	}
 	for i := range c.Docs {
